@@ -334,7 +334,9 @@ func applyArabicJoining(buffer *Buffer) {
 		if entry.prevAction != arabNone && prev != -1 {
 			info[prev].complexAux = entry.prevAction
 			buffer.safeToInsertTatweel(prev, len(buffer.Info))
-		} else if 2 <= state && state <= 5 /* States that have a possible prevAction. */ {
+		} else if prev != -1 && 2 <= state && state <= 5 /* States that have a possible prevAction. */ {
+			// prev == -1: the buffer holds only transparent characters, no glyph
+			// of it depends on the post-context
 			buffer.unsafeToConcat(prev, len(buffer.Info))
 		}
 		break
